@@ -148,7 +148,7 @@ def fwdActLoop (p : List Nat) (input : List Nat) (m : Match) (max : Nat) (destSt
         let n := ins p (ic + 1)
         if a.out.length + n > max then .fail a
         else fwdActLoop p input m max destStartMatch fuel (ic + n + 2)
-              { out := a.out ++ literal p ic, map := a.map ++ List.replicate n m.startReplace } destStartReplace newPos
+              { out := a.out ++ literal p ic, map := a.map ++ List.replicate (literal p ic).length m.startReplace } destStartReplace newPos
       else if op == pass_omit then fwdActLoop p input m max destStartMatch fuel (ic + 1) a destStartReplace newPos
       else if op == pass_copy then
         let count := destStartReplace - destStartMatch
@@ -284,7 +284,7 @@ inductive Sel where
   | unsupported
   | none
   | rule (r : Rule) (m : Match) (ic : Nat)
-  deriving Repr
+  deriving Repr, DecidableEq
 
 /-- opcode a rule of the chain of pass `n` must have (`findBackPassRule` filters; the forward chains
     hold nothing else) -/
